@@ -118,6 +118,10 @@ func c19Check(env *core.Env, cc core.Case) core.Verdict {
 			tree["rules/REQUEST-933-APPLICATION-ATTACK-PHP.conf"] = "SecRule ARGS \"@rx first\" \\\n    \"id:933100,\\\n    phase:2,\\\n    chain\"\n    SecRule ARGS \"@rx old\" \\"
 			tree["regex-assembly/933100-chain1.ra"] = c.Input
 			tree["regex-assembly/933100-chain2.ra"] = c.Input
+			// ... and a third one that begins in the middle of a rule: its first line is the id action
+			tree["rules/REQUEST-934-APPLICATION-ATTACK-GENERIC.conf"] = "    \"id:934100,\\\n    phase:2,\\\n    block\"\n"
+			tree["regex-assembly/934100.ra"] = c.Input
+			invs = append(invs, inv{[]string{"regex", "compare", "934100"}, nil}, inv{[]string{"regex", "update", "934100"}, nil})
 			invs = append(invs, inv{[]string{"regex", "compare", "933100-chain1"}, nil}, inv{[]string{"regex", "update", "933100-chain1"}, nil}, inv{[]string{"regex", "compare", "933100-chain2"}, nil},
 				inv{[]string{"regex", "compare", "--all"}, nil}, inv{[]string{"-o", "github", "regex", "update", "--all"}, nil})
 		}
